@@ -309,13 +309,14 @@ func satisfies(cfg Config, o obs, x expect) bool {
 		}
 		return false
 	case eRun:
-		if o.Status != 200 || o.Handler != 1 || o.Pick != x.mt {
+		if o.Status != 200 || o.Handler != 1 {
 			return false
 		}
 		if cfg.BodyParam {
-			return len(o.Consumed) == 1 && o.Consumed[0] == x.mt
+			return o.Pick == x.mt && len(o.Consumed) == 1 && o.Consumed[0] == x.mt
 		}
-		return len(o.Consumed) == 0 || (len(o.Consumed) == 1 && o.Consumed[0] == x.mt)
+		// nothing to decode: no other consumer may be picked or run
+		return (o.Pick == "" || o.Pick == x.mt) && (len(o.Consumed) == 0 || (len(o.Consumed) == 1 && o.Consumed[0] == x.mt))
 	case eLoose:
 		if len(o.Consumed) > 1 || o.Handler > 1 {
 			return false
@@ -458,7 +459,8 @@ func judge(c Case, u, t obs) []failure {
 		switch {
 		case au != at:
 			out = append(out, failure{"entrypoints-disagree-accept", fmt.Sprintf("%s <> %s", u, t)})
-		case au && at && (u.Pick != t.Pick || (c.Config.BodyParam && strings.Join(u.Consumed, ",") != strings.Join(t.Consumed, ","))):
+		case au && at && bodyModes[c.Body].carries == "yes" &&
+			(u.Pick != t.Pick || (c.Config.BodyParam && strings.Join(u.Consumed, ",") != strings.Join(t.Consumed, ","))):
 			out = append(out, failure{"entrypoints-disagree-consumer", fmt.Sprintf("%s <> %s", u, t)})
 		}
 	}
